@@ -90,7 +90,7 @@ func c09Corpus(r *vf.Run) []parseInput {
 		add("regression", s)
 	}
 	rng := r.RNG("corpus")
-	nSent := r.Pick(40000, 400000)
+	nSent := r.Pick(40000, 3000000)
 	for i := 0; i < nSent; i++ {
 		var toks []string
 		gen.Sentence(rng, rng.Intn(6), &toks, rng.Intn(3) != 0)
@@ -103,7 +103,7 @@ func c09Corpus(r *vf.Run) []parseInput {
 		}
 		add("sentence/"+kind, gen.Mutate(rng, kind, toks))
 	}
-	nBytes := r.Pick(30000, 300000)
+	nBytes := r.Pick(30000, 2000000)
 	for i := 0; i < nBytes; i++ {
 		add("bytes", gen.RandomBytes(rng, rng.Intn(14)))
 	}
@@ -297,7 +297,7 @@ func c09Bisect(batch []parseInput) parseInput {
 
 // c09Race repeats a slice of the corpus in a child built with the race detector.
 func c09Race(r *vf.Run, corpus []parseInput) {
-	n := r.Pick(6000, 60000)
+	n := r.Pick(6000, 300000)
 	rng := r.RNG("race-sample")
 	var texts []string
 	for i := 0; i < len(corpus) && len(texts) < 70; i++ {
